@@ -216,7 +216,7 @@ func TestC10_Precedence(t *testing.T) {
 		// own entry point (expression references, multi-select items, hash
 		// values, let bindings, arguments, parentheses, either side of a pipe):
 		// the value is the same, and so must the grouping be
-		if ctx := rapid.IntRange(0, 15).Draw(t, "context"); ctx >= 8 {
+		if ctx := rapid.IntRange(0, 18).Draw(t, "context"); ctx >= 8 {
 			cur := func() ast.Expr { return ast.Cur() }
 			one := func(x ast.Expr) *ast.Chain { return &ast.Chain{Head: ast.Head{Kind: ast.HMultiList, Items: []ast.Expr{x}}} }
 			first := ast.Step{Kind: ast.SIndex, Index: 0}
@@ -243,6 +243,21 @@ func TestC10_Precedence(t *testing.T) {
 			case 13:
 				wt = func(x string) string { return "not_null(" + x + ", `null`)" }
 				wa = func(x ast.Expr) ast.Expr { return ast.Call("not_null", ast.A(x), ast.A(ast.Lit(jv.VNull()))) }
+			case 16:
+				// a filter predicate is a full expression: every operator, the
+				// pipe included, is available inside it
+				wt = func(x string) string { return "[@][?" + x + "]" }
+				wa = func(x ast.Expr) ast.Expr { return one(cur()).With(ast.Step{Kind: ast.SFilter, Cond: x}) }
+			case 17:
+				wt = func(x string) string { return "[@] | [?" + x + "]" }
+				wa = func(x ast.Expr) ast.Expr {
+					return ast.Bin("|", one(cur()), &ast.Chain{Head: ast.Head{Kind: ast.HImplicit}, Steps: []ast.Step{{Kind: ast.SFilter, Cond: x}}})
+				}
+			case 18:
+				wt = func(x string) string { return "[@][? " + x + " ][0]" }
+				wa = func(x ast.Expr) ast.Expr {
+					return ast.Bin("|", one(cur()).With(ast.Step{Kind: ast.SFilter, Cond: x}), &ast.Chain{Head: ast.Head{Kind: ast.HImplicit}, Steps: []ast.Step{{Kind: ast.SListStar}, first}})
+				}
 			case 14:
 				wt = func(x string) string { return "max_by([@], &" + x + " && `1`) | " + x }
 				wa = nil
